@@ -82,7 +82,7 @@ BOUNDSET['min_version'] = dict(ret='r', contract='''    requires bs_wf(*self), b
 
 # ---------------------------------------------------------------------------------------------- Range
 RANGE = {}
-RANGE['any'] = dict(ret='r', contract='    ensures rwf(r), rsmall(r), r.0@.len() == 1, forall|k: VKey| rwithin(r, k),', entry='proof { reveal(cut_cmp); }')
+RANGE['any'] = dict(ret='r', contract='    ensures rwf(r), rsmall(r), r.0@.len() == 1, forall|k: VKey| rwithin(r, k),\n            forall|k: VKey| #![trigger rsat(r, k)] rsat(r, k) == (k.pre.len() == 0),   // `*`: every release, no prerelease', entry='proof { reveal(cut_cmp); }')
 RANGE['satisfies'] = dict(ret='r', contract='''    requires rwf(*self),
     ensures r == rsat(*self, key(*version)),''', entry='broadcast use g_any;',
     loops=[(0, 'it0', 'rwf(*self), !any_sat(self.0@, it0.index@ as int, key(*version)),')])
